@@ -96,7 +96,7 @@ fn compile_bytecode_(
     let file_asts = get_files(&mut ctx, &roots)?;
     statics::analyze(&mut ctx, &file_asts)?;
     let translator = Translator::new(ctx, file_asts);
-    Ok(translator.translate())
+    translator.translate()
 }
 
 pub fn check(
